@@ -33,7 +33,7 @@ class TheCheck(Check):
         self.also_audit = tuple(self.also_audit) + tuple(extra)
 
     def regenerate(self):
-        return []
+        return overlay.regenerate()
 
     def streams(self):
         return overlay.all_streams(self, self.prop)
